@@ -122,12 +122,14 @@ def run(ctx):
     plans = [('k', pc.K_ATOMS, 3), ('default', pc.D_ATOMS, 3)] if quick else \
             [('k', pc.K_ATOMS, 4), ('default', pc.D_ATOMS, 4)]
     invs = ['TolerantTotal', 'TolerantEqualsStrict', 'TolerantKeepsPrefix', 'NoNonterm']
+    pc.SOUP_VOLUME.update(num=150 if quick else 1500, nseeds=8 if quick else 16, seed=ctx.seed)
+    plans += [('k', pc.K_ATOMS, pc.SOUP + (9 if quick else 14)), ('default', pc.D_ATOMS, pc.SOUP + (9 if quick else 14))]
     for cname, atoms, K in plans:
         jobs = pc.export_jobs(atoms, cname, K, ['strict', 'tolerant'], invs,
                               payload=dict(sample_every=97 if quick else 997), timeout=6000)
-        m = common.run_shards(ctx, ('harness.c06', 'TolerantConsumer'), jobs, what='ParseRun both modes %s K=%d' % (cname, K))
+        m = common.run_shards(ctx, ('harness.c06', 'TolerantConsumer'), jobs, what='ParseRun both modes %s %s' % (cname, pc.kdesc(K)))
         ctx.add_merged(m)
-        ctx.log('%s K=%d: %d strings; %s' % (cname, K, m['n'], {k: v for k, v in m['counters'].items() if 'same' in k or 'dev' in k}))
+        ctx.log('%s %s: %d strings; %s' % (cname, pc.kdesc(K), m['n'], {k: v for k, v in m['counters'].items() if 'same' in k or 'dev' in k}))
         validate(ctx, m)
     # control: the pinned zero-width placeholder makes the tolerant reference parser loop ("nonterm")
     mc = pc.mc_text(['a', '\\'], 'default')
